@@ -63,6 +63,7 @@ extern int _mpt_geninfo_set(void *raw, const char *src, int len)
 	if (len < 0) {
 		if (!src) {
 			info->used = 0;
+			return 0;
 		}
 		len = strlen(src);
 	}
